@@ -11,6 +11,7 @@ from hypothesis import strategies as st
 from .. import gen, loader
 from ..engine import Outcome, Prop, compare
 from ..render import COMMA, END, I, K, L, LP, N, RP, T, V, plist, render_script
+MODES = ["sql", "mysql", "postgres", "hql", "mssql", "oracle", "redshift", "snowflake", "bigquery", "spark_sql", "databricks", "sqlite", "vertics", "ibm_db2", "athena"]
 
 KEY_POOL = [(None, "t"), ("a", "t"), ("b", "t"), ("a", "u"), (None, "u"), ("S1", "Orders"), ("b", "Orders"), (None, "Orders")]
 BASE_COLS = [("id", "int", None), ("name", "varchar", [10]), ("Code", "int", None), ("amt", "decimal", [10, 2]), ("code_id", "text", None)]  # a name that contains two other column names
@@ -114,8 +115,10 @@ def case_strategy(draw, max_ops):
         cands = [k for k in KEY_POOL + [("zz", "t"), (None, "nope")] if (k[0] and k[0].lower(), k[1].lower()) not in used]
         sch, tn = draw(st.sampled_from(cands))
         undefined = {"schema": sch, "name": tn, "kind": draw(st.sampled_from(["add", "uq", "index", "fk", "drop"])), "at": draw(st.integers(0, len(ops)))}
+    # the output mode filters dialect fields only: routing and effects are the same in all of them
+    mode = draw(st.sampled_from(["sql", "sql"] + MODES))
     return {"tables": tables, "ops": ops, "prefix": draw(st.integers(0, max(0, len(ops)))), "undefined": undefined,
-            "layout": draw(gen.layout(max_len=50))}
+            "layout": draw(gen.layout(max_len=50)), "mode": mode}
 
 
 def target(case, op):
@@ -268,7 +271,7 @@ def compare_table(out, tag, e, m, ddl):
     for c in a.get("columns", []):
         if c.get("references"):
             r = c["references"]
-            g.append(("fk", c["name"], c["constraint_name"], r["schema"], r["table"], r["column"], r.get("on_delete"), r.get("on_update")))
+            g.append(("fk", c["name"], c["constraint_name"], r["schema"] if "schema" in r else r["dataset"], r["table"], r["column"], r.get("on_delete"), r.get("on_update")))
     # entries of plain ADD column statements share the column dict (so they follow later renames);
     # the property only fixes the recorded foreign keys
     if g != [x for x in m["acols"] if x[0] == "fk"]:
@@ -287,7 +290,8 @@ class C04(Prop):
             "(incl. a schema-less twin) followed by a history of 0..8 (thorough 0..14) ALTER TABLE / CREATE INDEX "
             "statements, each naming its target through a re-spelled key (case change, \"..\", [..], `..`): ADD column, "
             "DROP/RENAME/MODIFY/ALTER COLUMN, ADD [CONSTRAINT] PRIMARY KEY/UNIQUE/CHECK/DEFAULT..FOR/FOREIGN KEY, "
-            "[UNIQUE] INDEX with ASC/DESC/NULLS; optionally one statement naming an undefined table; "
+            "[UNIQUE] INDEX with ASC/DESC/NULLS; optionally one statement naming an undefined table; parsed in a drawn output mode "
+            "(sql twice as likely as each of the 15); "
             "non-trivial = >= 2 tables sharing a name and >= 1 operation addressed through a re-spelled key; "
             "distinct = SHA-1 of the case")
     budgets = {"quick": 8000, "thorough": 150000}
@@ -318,7 +322,10 @@ class C04(Prop):
     def run_and_compare(self, out, case, upto, tag):
         stmts = self.statements(case, upto, with_undefined=False)
         ddl = render_script(stmts, case["layout"])
-        r = loader.try_parse(ddl)
+        mode = case.get("mode", "sql")
+        skey = "dataset" if mode == "bigquery" else "schema"
+        tag = "%s (output_mode=%s)" % (tag, mode)
+        r = loader.try_parse(ddl, output_mode=mode)
         out.parses += 1
         if r[0] != "ok":
             out.fail("exception", "%s: %s: %s on %r" % (tag, r[1], r[2], ddl))
@@ -332,10 +339,10 @@ class C04(Prop):
             for op in (case["ops"] if upto is None else case["ops"][:upto]):
                 apply_op(models, op)
             for t, e, m in zip(case["tables"], res, models):
-                if e.get("table_name") != t["name"] or e.get("schema") != t["schema"]:
-                    out.fail("table-identity", "%s: expected %r.%r got %r.%r" % (tag, t["schema"], t["name"], e.get("schema"), e.get("table_name")))
+                if e.get("table_name") != t["name"] or e.get(skey) != t["schema"]:
+                    out.fail("table-identity", "%s: expected %r.%r got %r.%r" % (tag, t["schema"], t["name"], e.get(skey), e.get("table_name")))
                 if not m["touched"]:
-                    base = loader.parse(render_script([table_tokens(t)], None))
+                    base = loader.parse(render_script([table_tokens(t)], None), output_mode=mode)
                     out.parses += 1
                     if e != base[0]:
                         out.fail("untouched-table-changed", "%s: table %r.%r was not named by any statement but differs; %r" % (tag, t["schema"], t["name"], ddl))
@@ -349,7 +356,7 @@ class C04(Prop):
         shared = len(set(names)) < len(names)
         respelled = any(op["tbl_style"] != "plain" or (case["tables"][op["t"]]["schema"] and op["sch_style"] != "plain") for op in case["ops"])
         out.nontrivial = shared and respelled and len(case["ops"]) > 0
-        out.label("tables=%d" % len(case["tables"]), "ops=%d" % len(case["ops"]), "shared_name=%s" % shared)
+        out.label("tables=%d" % len(case["tables"]), "ops=%d" % len(case["ops"]), "shared_name=%s" % shared, "mode:" + case.get("mode", "sql"))
         for op in case["ops"]:
             out.label("op:" + op["kind"], "spell:" + op["tbl_style"])
         self.run_and_compare(out, case, None, "full history")
@@ -358,7 +365,7 @@ class C04(Prop):
         if case["undefined"]:
             out.label("undefined:" + case["undefined"]["kind"])
             ddl = render_script(self.statements(case), case["layout"])
-            r = loader.try_parse(ddl)
+            r = loader.try_parse(ddl, output_mode=case.get("mode", "sql"))
             out.parses += 1
             if r[0] == "ok":
                 out.fail("undefined-target-accepted", "statement naming undefined table %r.%r did not raise; %r" % (case["undefined"]["schema"], case["undefined"]["name"], ddl))
